@@ -4,8 +4,7 @@ CONSTANTS
   BugCursorLeak = FALSE
   MaxInt = 2
   MaxNC = 2
-  MaxA = 3
+  MaxA = 2
   MaxH = 1
   Budgets = {1, 2}
 INVARIANTS TypeOK ExactlyOneFormat HomoPaired OtherUntouched Upgraded ReadyIsCurrent
-PROPERTIES VersionMonotone Termination
